@@ -1,0 +1,103 @@
+//! Verification hooks for FSE. Only compiled with the `verif_hooks` feature.
+//!
+//! Thin wrappers that make crate private types and functions usable from an external monitor.
+
+use super::fse_encoder::{self, FSEEncoder};
+use super::{FSEDecoder, FSETable};
+use crate::bit_io::{BitReaderReversed, BitWriter};
+use alloc::format;
+use alloc::string::String;
+use alloc::vec::Vec;
+
+/// An encoding table as used by the compressor
+#[derive(Clone)]
+pub struct EncFse(pub(crate) fse_encoder::FSETable);
+
+impl EncFse {
+    /// The table the compressor builds for these symbols (`build_table_from_data`)
+    pub fn from_data(data: impl Iterator<Item = u8>, max_log: u8, avoid_0_numbit: bool) -> Self {
+        EncFse(fse_encoder::build_table_from_data(
+            data,
+            max_log,
+            avoid_0_numbit,
+        ))
+    }
+    pub fn from_probabilities(probs: &[i32], acc_log: u8) -> Self {
+        EncFse(fse_encoder::build_table_from_probabilities(probs, acc_log))
+    }
+    pub fn default_ll() -> Self {
+        EncFse(fse_encoder::default_ll_table())
+    }
+    pub fn default_ml() -> Self {
+        EncFse(fse_encoder::default_ml_table())
+    }
+    pub fn default_of() -> Self {
+        EncFse(fse_encoder::default_of_table())
+    }
+    pub fn acc_log(&self) -> u8 {
+        self.0.acc_log()
+    }
+    /// The normalized probability of all 256 possible symbols
+    pub fn probabilities(&self) -> Vec<i32> {
+        self.0.states.iter().map(|s| s.probability).collect()
+    }
+    /// (symbol, index in the decoding table, baseline, number of bits) of every state
+    pub fn states(&self) -> Vec<(u8, usize, usize, u8)> {
+        let mut out = Vec::new();
+        for (symbol, states) in self.0.states.iter().enumerate() {
+            for s in &states.states {
+                out.push((symbol as u8, s.index, s.baseline, s.num_bits));
+            }
+        }
+        out
+    }
+    /// The serialized table description as the compressor writes it
+    pub fn write_table(&self) -> Vec<u8> {
+        let mut writer = BitWriter::new();
+        self.0.write_table(&mut writer);
+        writer.dump()
+    }
+    /// Table description followed by the symbols encoded with one state
+    pub fn encode(&self, data: &[u8]) -> Vec<u8> {
+        let mut writer = BitWriter::new();
+        FSEEncoder::new(self.0.clone(), &mut writer).encode(data);
+        writer.dump()
+    }
+    /// Table description followed by the symbols encoded with two interleaved states
+    pub fn encode_interleaved(&self, data: &[u8]) -> Vec<u8> {
+        let mut writer = BitWriter::new();
+        FSEEncoder::new(self.0.clone(), &mut writer).encode_interleaved(data);
+        writer.dump()
+    }
+}
+
+/// Decode `n` symbols from a single state FSE bitstream with the crate's decoder.
+/// Returns the symbols and the number of bits that are left in the stream afterwards.
+pub fn decode_stream(
+    table: &FSETable,
+    stream: &[u8],
+    n: usize,
+) -> Result<(Vec<u8>, isize), String> {
+    let mut br = BitReaderReversed::new(stream);
+    let mut skipped_bits = 0;
+    loop {
+        let val = br.get_bits(1);
+        skipped_bits += 1;
+        if val == 1 || skipped_bits > 8 {
+            break;
+        }
+    }
+    if skipped_bits > 8 {
+        return Err(String::from("ExtraPadding"));
+    }
+    let mut decoder = FSEDecoder::new(table);
+    decoder.init_state(&mut br).map_err(|e| format!("{e}"))?;
+    let mut decoded = Vec::with_capacity(n);
+    for _ in 0..n {
+        decoded.push(decoder.decode_symbol());
+        if decoded.len() < n {
+            decoder.update_state(&mut br);
+        }
+    }
+    Ok((decoded, br.bits_remaining()))
+}
